@@ -30,6 +30,15 @@ func GenProfile(r *rand.Rand) *profile.Profile {
 	}
 	p := gen.Profile(r, o)
 	p.DropFrames = []string{"", "", "main|a"}[r.Intn(3)]
+	if r.Intn(4) == 0 {
+		// two sample types of one unit family at very different magnitudes (reports of the two
+		// choose output units that differ only by the case of their prefix: M*GCU and m*GCU)
+		p.SampleType = []*profile.ValueType{{Type: "big", Unit: "gcu"}, {Type: "small", Unit: "milligcu"}}
+		for _, s := range p.Sample {
+			s.Value = []int64{int64(2+r.Intn(7)) * 1000000, int64(1 + r.Intn(9))}
+		}
+		p.DefaultSampleType = ""
+	}
 	return p
 }
 
@@ -38,14 +47,14 @@ type line struct {
 	assign bool
 }
 
-var assignPool = []string{"focus=main", "focus=a|b", "focus=", "ignore=c", "ignore=", "hide=d|e", "hide=", "show=a|b|main|run", "show=", "show_from=b", "show_from=", "prune_from=c", "prune_from=",
+var assignPool = []string{"focus=main", "focus=a|b", "focus=a", "focus=", "ignore=c", "ignore=b|c", "ignore=", "hide=d|e", "hide=", "show=a|b|main|run", "show=", "show_from=b", "show_from=", "prune_from=c", "prune_from=",
 	"tagfocus=v1", "tagfocus=", "tagignore=x", "tagignore=", "tagshow=k1", "tagshow=", "taghide=k2", "taghide=", "tagroot=k1", "tagroot=", "tagleaf=k2", "tagleaf=",
 	"granularity=lines", "granularity=files", "granularity=functions", "granularity=addresses", "granularity=filefunctions", "lines", "functions", "files",
 	"noinlines", "noinlines=false", "nodecount=2", "nodecount=-1", "nodefraction=0.3", "nodefraction=0.005", "edgefraction=0.2", "cum", "flat", "sort=cum", "sort=flat",
-	"sample_index=samples", "sample_index=cpu", "samples", "cpu", "mean_cpu", "total_cpu", "mean", "mean=false", "call_tree", "call_tree=false", "relative_percentages", "relative_percentages=false",
+	"sample_index=samples", "sample_index=cpu", "sample_index=big", "sample_index=small", "big", "small", "samples", "cpu", "mean_cpu", "total_cpu", "mean", "mean=false", "call_tree", "call_tree=false", "relative_percentages", "relative_percentages=false",
 	"unit=ms", "unit=minimum", "trim=false", "trim", "trim_path=/src", "trim_path=", "source_path=/work/src", "source_path=/w/other:/w/dir", "source_path=", "divide_by=2", "divide_by=1", "drop_negative", "drop_negative=false", "compact_labels=false", "showcolumns", "showcolumns=false", ":"}
 
-var commandPool = []string{"top", "top 3", "top5", "top -cum", "top 4 main", "top a -b", "top 2 -cum c", "text", "tree", "tree 3", "peek a|b", "peek main", "traces", "tags", "tags k1", "tags v1 -x", "raw", "comments",
+var commandPool = []string{"top", "top 3", "top5", "top -cum", "top 4 main", "top a -b", "top a b -c", "top a -b -c", "top a|b -c", "traces a b -c", "traces a -b -c", "top 2 -cum c", "text", "tree", "tree 3", "peek a|b", "peek main", "traces", "tags", "tags k1", "tags v1 -x", "raw", "comments",
 	"dot", "dot 3", "dot main", "callgrind", "proto", "topproto", "list main", "list a", "weblist a", "disasm a", "top > t.txt", "tree >tree.out", "dot > g.dot", "proto > p.pb.gz", "svg", "o", "help top", "nosuch", "top ("}
 
 func genHistory(r *rand.Rand) []line {
@@ -247,7 +256,7 @@ func init() {
 		ID:          "C10",
 		Level:       "exploration",
 		CaseTimeout: 15 * time.Minute,
-		Rule:        "part interactive: histories of 5-20 lines mixing 37 report commands (with focus/ignore arguments, node counts, -cum, >file, mutating reports: hide/show/show_from/prune_from/tagroot/tagleaf/granularity/noinlines/callgrind/tags/list/weblist/disasm) and 78 option assignments (incl. shortcuts and ':'), run in one fresh child process with per-line transcripts (stdout, UI prints, UI errors, files written); for EVERY command the same command is run in another fresh process that only replays the assignments preceding it, and the transcripts must be byte-equal (temporary-file counters normalised, saved profiles compared by content). part web: request histories over /top / /peek /flamegraph /source /disasm /download with query configs, sequential or from 2-6 concurrent clients against one server; every response must equal the response to the same request sent first to a fresh server. The very *profile.Profile object handed to pprof is fingerprinted after every command/request and must never change. non-trivial = every case; distinct = case",
+		Rule:        "part interactive: histories of 5-20 lines mixing 42 report commands (with focus/ignore arguments, node counts, -cum, >file, mutating reports: hide/show/show_from/prune_from/tagroot/tagleaf/granularity/noinlines/callgrind/tags/list/weblist/disasm) and 84 option assignments (incl. shortcuts and ':'), run in one fresh child process with per-line transcripts (stdout, UI prints, UI errors, files written); for EVERY command the same command is run in another fresh process that only replays the assignments preceding it, and the transcripts must be byte-equal (temporary-file counters normalised, saved profiles compared by content). part web: request histories over /top / /peek /flamegraph /source /disasm /download with query configs, sequential or from 2-6 concurrent clients against one server; every response must equal the response to the same request sent first to a fresh server. The very *profile.Profile object handed to pprof is fingerprinted after every command/request and must never change. non-trivial = every case; distinct = case",
 		Assumptions: []string{"the only state a command may depend on is the sequence of option assignments before it", "saveconfig/deleteconfig are excluded here (C19)"},
 		Parts: []harness.Part{
 			{Name: "interactive", Quick: 500, Thor: 10000, Run: runInteractive},
